@@ -78,6 +78,19 @@ DoHashPuzzle(tx, op) ==
 \* AddOpReturnOutput / AddOpReturnPartsOutput: OP_FALSE OP_RETURN then one push per part, 0 satoshis
 DoOpReturn(tx, op) == Ok(AddOut(tx, Zeros(8), <<0, 106>> \o EncodeParts(op.parts)))
 
+\* Inscribe(prefix, content type, data): one 1-satoshi output  prefix + ordinals envelope
+OrdEnvelope(ct, data) == <<0, 99, 3, 111, 114, 100, 81>> \o Push(ct) \o <<0>> \o Push(data) \o <<104>>
+DoInscribe(tx, op) == Ok(AddOut(tx, LE64(1), op.prefix \o OrdEnvelope(op.ct, op.data)))
+\* InscribeSpecificOrdinal(args, inputIdx, satoshiIdx, extraScript): a first output absorbing the
+\* satoshis in front of the chosen one (sum of the inputs before inputIdx, none of them zero, plus
+\* satoshiIdx; 64-bit wrap), then the inscription.  inputIdx may equal the number of inputs.
+DoInscribeAt(tx, op) ==
+    IF Len(tx.ins) < op.idx THEN Err(tx)
+    ELSE IF \E k \in 1..op.idx : tx.ins[k].sats = Zeros(8) THEN Err(tx)
+    ELSE IF tx.outs # <<>> THEN Err(tx)
+    ELSE LET amount == Add64(Sum64([k \in 1..op.idx |-> tx.ins[k].sats]), op.satidx) IN
+         Ok(AddOut(AddOut(tx, amount, op.extra), LE64(1), op.prefix \o OrdEnvelope(op.ct, op.data)))
+
 \* InsertInputUnlockingScript(index, script): indexes the slice before testing it
 DoInsertUS(tx, op) == IF op.idx >= Len(tx.ins) THEN [res |-> "panic", tx |-> tx]
                       ELSE Ok([tx EXCEPT !.ins[op.idx + 1].us = op.us])
@@ -129,6 +142,8 @@ Do(tx, op) ==
       [] op.k = "pkbytes" -> DoPKBytes(tx, op)
       [] op.k = "hashpuzzle" -> DoHashPuzzle(tx, op)
       [] op.k = "opreturn" -> DoOpReturn(tx, op)
+      [] op.k = "inscribe" -> DoInscribe(tx, op)
+      [] op.k = "inscribeat" -> DoInscribeAt(tx, op)
       [] op.k = "insertus" -> DoInsertUS(tx, op)
       [] op.k = "set" -> DoSet(tx, op)
       [] op.k \in {"change", "changeexisting"} -> DoChange(tx, op)
